@@ -483,3 +483,71 @@ Proof.
   rewrite Ex in X1. rewrite Ey in Y1. injection X1 as <-. injection Y1 as <-.
   rewrite (X3 i Hx), (Y3 i Hy), HV. reflexivity.
 Qed.
+
+(* ====================================================================== *)
+(* 6. the weights as usually defined in the fractional-differencing literature:
+      w_0 = 1, w_{k+1} = - w_k (d - k)/(k + 1); for 0 < d < 1 every weight but the first is
+      negative and the magnitudes decrease                                                     *)
+Lemma fdiff_weight_S d k :
+  fdiff_weight d (S k) = - fdiff_weight d k * ((d - INR k) / INR (S k)).
+Proof. unfold fdiff_weight. rewrite binomR_S. cbn [pow]. ring. Qed.
+
+Lemma fdiff_weight_negative d k :
+  0 < d < 1 -> (1 <= k)%nat -> fdiff_weight d k < 0.
+Proof.
+  intros Hd Hk. induction k as [|k IH]; [lia|].
+  destruct k as [|k].
+  - rewrite fdiff_weight_1. lra.
+  - rewrite fdiff_weight_S. specialize (IH ltac:(lia)).
+    assert (Hk1 : 1 <= INR (S k)) by (apply (le_INR 1); lia).
+    assert (Hpos : 0 < INR (S (S k))) by (apply lt_0_INR; lia).
+    assert (Hq : (d - INR (S k)) / INR (S (S k)) < 0).
+    { assert (Hinv : 0 < / INR (S (S k))) by (apply Rinv_0_lt_compat; exact Hpos).
+      unfold Rdiv. set (iv := / INR (S (S k))) in *. clearbody iv. nra. }
+    set (q := (d - INR (S k)) / INR (S (S k))) in *. set (v := fdiff_weight d (S k)) in *.
+    clearbody q v. nra.
+Qed.
+
+Lemma fdiff_weight_decreasing d k :
+  0 < d < 1 -> (1 <= k)%nat -> fdiff_weight d k < fdiff_weight d (S k).
+Proof.
+  intros Hd Hk. pose proof (fdiff_weight_negative d k Hd Hk) as Hneg.
+  rewrite fdiff_weight_S.
+  assert (Hk1 : 1 <= INR k) by (apply (le_INR 1); lia).
+  assert (Hpos : 0 < INR (S k)) by (apply lt_0_INR; lia).
+  (* - q = (k - d)/(k + 1) is in (0,1) *)
+  assert (Hq : 0 < - ((d - INR k) / INR (S k)) < 1).
+  { rewrite S_INR in *.
+    assert (Hinv : 0 < / (INR k + 1)) by (apply Rinv_0_lt_compat; lra).
+    assert (Hone : / (INR k + 1) * (INR k + 1) = 1) by (apply Rinv_l; lra).
+    unfold Rdiv. set (iv := / (INR k + 1)) in *. clearbody iv. split; nra. }
+  set (q := (d - INR k) / INR (S k)) in *. set (v := fdiff_weight d k) in *. clearbody q v. nra.
+Qed.
+
+(* the repository's own unit-test vectors (rolling.rs test_fdiff_coef / test_fdiff), exactly *)
+Lemma fdiff_coef_half_4 :
+  fdiff_coef (Some (/ 2)) 4 = [Some (- / 16); Some (- / 8); Some (- / 2); Some 1].
+Proof.
+  rewrite fdiff_coef_spec. cbn [seq rev app map]. unfold fdiff_weight, binomR.
+  cbn [binomR_from pow INR]. repeat (f_equal; [f_equal; field|]). f_equal. f_equal. ring.
+Qed.
+
+Lemma test_fdiff_vector body :
+  exists out, ts_vfdiff (DT := IsNoneXR) body (Some (/ 2)) 4%nat None
+                (map Some [7; 4; 2; 5; 1; 2]) = Done out /\
+    out = [None; Some (/ 2); Some (- (7 / 8)); Some (49 / 16); Some (- 2); Some (3 / 4)].
+Proof.
+  destruct (ts_vfdiff_spec body (/ 2) 4%nat None (map Some [7; 4; 2; 5; 1; 2]) ltac:(lia))
+    as (out & H1 & H2 & H3).
+  exists out. split; [exact H1|]. apply nth_error_ext. intros i.
+  destruct (Nat.lt_ge_cases i 6) as [Hi|Hi].
+  - rewrite (H3 i ltac:(cbn; lia)).
+    do 6 (destruct i as [|i]; [
+      cbn [map win wstart Nat.sub skipn firstn valid flat_map app length nth_error]; cbv zeta;
+      change (mp_eff None 4 0) with 2%nat; cbn [Nat.leb];
+      try reflexivity;
+      (do 2 f_equal; rewrite !fdiffR_cons, fdiffR_nil; unfold fdiff_weight, binomR;
+       cbn [length binomR_from pow INR]; field) |]).
+    lia.
+  - transitivity (@None XR); [|symmetry]; apply nth_error_None; [rewrite H2|]; cbn [map length]; lia.
+Qed.
